@@ -5,6 +5,7 @@ package c11
 import (
 	"encoding/json"
 	"math"
+	"time"
 
 	sentinel "github.com/alibaba/sentinel-golang/api"
 	"github.com/alibaba/sentinel-golang/core/flow"
@@ -28,6 +29,11 @@ type Cfg struct {
 	// DefaultMs: the resource's default statistic interval as configured for the process (0 = 1000); a rule without
 	// an interval of its own is counted per that interval
 	DefaultMs uint32 `json:"default_stat_ms,omitempty"`
+	// Queue (scripted scenario): the warm-up rule queues (Throttling, QueueMs) instead of rejecting. One caller asks
+	// for the next token as soon as the previous Entry has returned, waits included (Sleep at the clock seam moves
+	// the clock), for 2*period+6 s: in the last second the rule passes most of its full rate.
+	Queue   bool   `json:"queue,omitempty"`
+	QueueMs uint32 `json:"queue_ms,omitempty"`
 	// memory adaptive
 	LowT    int64 `json:"low_t,omitempty"`
 	HighT   int64 `json:"high_t,omitempty"`
@@ -57,6 +63,18 @@ func (P) Describe() harness.Description {
 
 func (P) Gen(rng *sim.Rng, tier string) *harness.Case {
 	cfg := Cfg{Origin: (1700000000000 + rng.U64Range(0, 100000)) / 1000 * 1000, Memory: rng.Chance(0.25)}
+	if rng.Chance(0.03) {
+		// (intervals that reuse the resource's statistic and intervals that get a statistic of their own)
+		iv := []uint32{0, 1000, 500, 200, 700, 1500}[rng.Intn(6)]
+		per := iv
+		if per == 0 {
+			per = 1000
+		}
+		rate := []float64{20, 50, 100}[rng.Intn(3)] // tokens per second
+		cfg = Cfg{Origin: cfg.Origin, Queue: true, QueueMs: []uint32{100, 500, 2000}[rng.Intn(3)], Interval: iv, T: rate * float64(per) / 1000,
+			Period: uint32(rng.Range(2, 6)), Cold: uint32([]int{0, 2, 3, 5}[rng.Intn(4)])}
+		return &harness.Case{Cfg: harness.MustJSON(cfg), Callers: [][]harness.Op{{{K: "queue"}}}}
+	}
 	var ops []harness.Op
 	if cfg.Memory {
 		cfg.LowT = int64(rng.Range(2, 50))
@@ -176,6 +194,10 @@ func (P) Exec(c *harness.Case) *harness.Outcome {
 		return o
 	}
 	if cfg.T <= 0 || cfg.Period == 0 || cfg.Cold == 1 {
+		return o
+	}
+	if cfg.Queue {
+		execQueue(o, &cfg, clk)
 		return o
 	}
 	if !harness.Call(o, "C11.panic", 0, func() {
@@ -459,4 +481,58 @@ func execMemory(c *harness.Case, o *harness.Outcome, cfg *Cfg, clk *sim.Clock) {
 		}
 	}
 	o.Nontrivial = len(regions) == 3
+}
+
+// execQueue: see Cfg.Queue.
+func execQueue(o *harness.Outcome, cfg *Cfg, clk *sim.Clock) {
+	iv := uint64(cfg.Interval)
+	if iv == 0 {
+		iv = 1000
+	}
+	perSec := cfg.T * 1000 / float64(iv)
+	if cfg.Period > 20 || cfg.QueueMs == 0 || perSec < 10 || perSec > 2000 || iv < 50 {
+		return
+	}
+	if !harness.Call(o, "C11.panic", 0, func() {
+		_, err := flow.LoadRules([]*flow.Rule{{Resource: "res-0", TokenCalculateStrategy: flow.WarmUp, ControlBehavior: flow.Throttling, MaxQueueingTimeMs: cfg.QueueMs,
+			Threshold: cfg.T, WarmUpPeriodSec: cfg.Period, WarmUpColdFactor: cfg.Cold, StatIntervalInMs: cfg.Interval}})
+		if err != nil {
+			o.Fail("C11.load-error", 0, "%v", err)
+		}
+	}) || o.Failed() {
+		return
+	}
+	clk.OnSleep = func(d time.Duration) {
+		if d > 0 {
+			clk.AdvanceNs(uint64(d))
+		}
+	}
+	start := clk.NowMs()
+	total := uint64(2*cfg.Period+6) * 1000
+	perSecond := make([]int, 2*cfg.Period+7)
+	for i := 0; i < 4000000 && clk.NowMs()-start < total && !o.Failed(); i++ {
+		admitted := false
+		harness.Call(o, "C11.panic", 0, func() {
+			if e, _ := sentinel.Entry("res-0", harness.EntryOpts(1, false, nil, nil, nil)...); e != nil {
+				admitted = true
+				e.Exit()
+			}
+		})
+		if at := (clk.NowMs() - start) / 1000; admitted && int(at) < len(perSecond) {
+			perSecond[at]++
+		}
+		if !admitted {
+			clk.AdvanceMs(1) // rejected for queueing: try again a millisecond later
+		}
+	}
+	o.SimMs += clk.NowMs() - start
+	if o.Failed() {
+		return
+	}
+	o.Nontrivial = true
+	o.Probe("queueing_warm_up_rule_under_a_caller_that_never_lets_go")
+	last := perSecond[2*cfg.Period+4]
+	if float64(last) < 0.8*perSec-1 {
+		o.Fail("C11.not-warmed-up", 0, "warm-up rule that queues (threshold %v per %d ms = %.0f tokens/s, period %d s, cold factor %d, max queueing %d ms) under one caller that asks for the next token as soon as the last Entry returned: second %d of the demand passed %d tokens, the full rate is %.0f (passed per second: %v)", cfg.T, iv, perSec, cfg.Period, cfg.Cold, cfg.QueueMs, 2*cfg.Period+4, last, perSec, perSecond)
+	}
 }
